@@ -54,39 +54,108 @@ def _builtin_lookup(rng, rules):
     return ['G', p.strip('/')]
 
 
+#: what the context-sensitive regexes of G.CTX_RE_POOL contain (statistics only)
+CTX_MARKS = ('(?<', '\\b', '\\B', '\\A', 're:^', 're(^', 'rex:^', 'rex(^', '(?m)^')
+
+
+def has_hooks(ops):
+    return any(op[0] == 'H' for op in ops)
+
+
+def make_runner(ops):
+    """the runner for a history: with route hooks in it, the edit runner of C11 (`redit hist` lines:
+    the ops of `router hist` plus `H`, `P`, `V`, see lean/OmbottModel/Drv/RouterEdit.lean)"""
+    if has_hooks(ops):
+        from harness.router_edit_gen import EditRunner
+        return EditRunner()
+    return G.Runner()
+
+
 def play(run, ops):
     """replay a recorded op list on a Runner"""
+    hooked = has_hooks(ops)
     for op in ops:
         if op[0] == 'A':
             run.add(op[1], op[2], op[3], op[4])
+        elif op[0] == 'H':
+            run.add_hook(op[1], op[2])
         elif op[0] == 'R':
-            run.resolve(op[1], op[2])
+            if hooked and op[2] and len(run.ops) % 3 == 0:
+                run.resolve_h(op[1], op[2])         # the same lookup with the collected hooks shown
+            else:
+                run.resolve(op[1], op[2])
         elif op[0] == 'G':
             run.get(op[1])
         elif op[0] == 'W':
-            run.wsgi(op[1], op[2])
+            if hooked:
+                run.serve(op[1], op[2])             # hooks observed: a per-prefix 404 hook answers for the router
+            else:
+                run.wsgi(op[1], op[2])
         elif op[0] == 'D':
             run.remove_method(op[1], op[2])
 
 
+def rename_ast(rng, ast):
+    """the same pattern spelled with other wildcard names (anonymous ones included)"""
+    out, seen = [], set()
+    for s in ast:
+        if s[0] == 'w':
+            nm = rng.choice(G.NAMES + ['hk', 'q'])
+            while nm in seen:
+                nm += '_'
+            seen.add(nm)
+            s = ('w', nm) + tuple(s[2:])
+        out.append(tuple(s))
+    return out
+
+
+def gen_hook_op(rng, asts):
+    """a route hook (simple or per-prefix 404 handler) on the pattern of a rule of the history or on
+    a prefix of it, mostly spelled with OTHER wildcard names than the rule's own"""
+    from harness.router_edit_gen import cut_ast
+    ast = rng.choice(asts) if asts else [('lit', 'a')]
+    if rng.random() < .35:
+        ast = cut_ast(rng, ast)
+    if rng.random() < .85:
+        ast = rename_ast(rng, ast)
+    for _ in range(6):
+        t = G.print_rule(rng, ast)
+        if t is not None and G.in_domain(t):
+            return ['H', t, rng.random() < .35]
+    return ['H', '/a', False]
+
+
 def gen_history(rng, stats, names=True, max_adds=8):
-    """op list (not yet played): adds interleaved with lookups"""
+    with G.ctx_regexes(.3):
+        return _gen_history(rng, stats, names, max_adds)
+
+
+def _gen_history(rng, stats, names=True, max_adds=8):
+    """op list (not yet played): adds interleaved with lookups; a quarter of the histories also install
+    route hooks (before / after the registrations they share a pattern with)"""
     if rng.random() < .2:
         return gen_builtin_history(rng)
     ops = []
     asts = []
     n_add = rng.randint(1, max_adds)
+    hooks = rng.random() < .25
     # lookups after (almost) every registration, so that every intermediate tree is probed
     head, tail = [], ['Q'] * rng.randint(2, 5)
     for _ in range(n_add):
+        if hooks and rng.random() < .2:
+            head.append('H')
         head.append('A')
         if rng.random() < .7:
             head += ['Q'] * rng.randint(1, 3)
+        if hooks and rng.random() < .45:
+            head += ['H'] + ['Q'] * rng.randint(1, 2)
     from ombott.router.radirouter import RadiRouter
     shadow = RadiRouter()          # only to know which rules are accepted (paths are derived from those)
     live = []
     for what in head + tail:
-        if what == 'A':
+        if what == 'H':
+            ops.append(gen_hook_op(rng, live or asts))
+        elif what == 'A':
             if rng.random() < .08:
                 rule, ast = rng.choice(SPECIAL_RULES), None
             else:
@@ -133,7 +202,7 @@ class C01(Check):
                   'the rule text the handler was registered with, bound to its own filters\' values '
                   '(params_are_rule_names, filter_guard); for every filter environment, rex selectors included, a '
                   'handler is only called when its own rule matches and only with filter answers (get_sound, '
-                  'handler_called_only_on_match); every syntax flavour parses to the same abstract rule (parse_print). For rule sets that use only plain / int / '
+                  'handler_called_only_on_match); installing a route hook / per-prefix 404 handler after any edit history, on any pattern under any wildcard names, leaves handler, method and kwargs of every lookup unchanged (hooks_keep_handler_kwargs); every syntax flavour parses to the same abstract rule (parse_print). For rule sets that use only plain / int / '
                   'float / path wildcards the filter environment is no longer a parameter: resolve_eq_rule_by_rule_builtin and '
                   'filter_guard_builtin state the property over the concrete handlers of Model/RouterBuiltinEnv.lean (an int kwarg is '
                   'the integer value of the -?\\d+ text at that position, a float kwarg the numeral matched by -?\\d+(\\.\\d+)?, a '
@@ -146,7 +215,11 @@ class C01(Check):
             'all filter kinds incl. rex selectors, malformed rules, several methods/names per pattern, names, overwrite) '
             'with lookups after almost every registration through RadiRouter.resolve, RadiDict.get(allow_partial) and '
             'Ombott.__call__ on paths derived from the accepted rules (per-regex samples) and mutated (empty segments, '
-            'CR, LF, non-ASCII, extra text, extra slashes); non-trivial = some lookup hits a wildcard rule. Thorough '
+            'CR, LF, non-ASCII, extra text, extra slashes); 30% of the regex filters carry context-sensitive zero-width assertions '
+            '(^ \\A \\b \\B, look-behinds on the characters literal runs are made of) so that matching on the remaining text and matching '
+            'in place differ behind a literal; a quarter of the histories install route hooks / per-prefix 404 handlers on registered '
+            'patterns and their prefixes under other wildcard names, before and after the registrations (compared with the model as '
+            '`redit hist` lines, requests with the hooks observed); non-trivial = some lookup hits a wildcard rule. Thorough '
             'search adds the exhaustive scope: every rule set of <= 3 rules of a 14-rule universe x every path of '
             'length <= 5 over {a / 1 - CR}. A fifth of the histories use the built-in filter pool: path wildcards before '
             'literals made of regex metacharacters (.tar/ +x (1) [a] $ ^ | ? * \\d) continuing afterwards, with decoy '
@@ -179,10 +252,11 @@ class C01(Check):
         out = []
         for _ in range(n):
             ops = gen_history(rng, self.stats)
-            run = G.Runner()
+            run = make_runner(ops)
             # half of the histories are replayed by the model with the handlers of int / float / path
             # computed concretely (`router histb`, Model/RouterBuiltinEnv.lean) instead of shipped
-            run.histb = rng.random() < .5
+            # (histories with route hooks go to the model as `redit hist` lines)
+            run.histb = rng.random() < .5 and not has_hooks(ops)
             try:
                 play(run, ops)
             except core.Hang:
@@ -200,7 +274,10 @@ class C01(Check):
                 if ans.startswith('hit:') and ('=s.' in ans or '=c.' in ans or ':s.' in ans or ':c.' in ans):
                     wild_hit = True
             self._bump('ops', len(run.ops))
-            self._bump('hist-concrete-builtins' if run.histb else 'hist-shipped-filters')
+            self._bump('hist-with-route-hooks' if has_hooks(ops) else
+                       'hist-concrete-builtins' if run.histb else 'hist-shipped-filters')
+            if any(op[0] == 'A' and any(x in op[1] for x in CTX_MARKS) for op in ops):
+                self._bump('hist-context-sensitive-regex')
             out.append((run.line(), run.answer(), dict(ops=ops, wild_hit=wild_hit)))
         out += self.corr_builtin(rng, n)
         return out
@@ -292,6 +369,7 @@ class C01(Check):
         rules = {}        # pattern -> filters (real handlers)
         reg = {}          # pattern -> {METHOD: param names of the rule it was registered under}
         bad = []
+        nh = 0
         for op in ops:
             if op[0] == 'A':
                 _, rule, methods, name, ow = op
@@ -309,6 +387,19 @@ class C01(Check):
                         reg.setdefault(pat, {})[m.upper()] = params
             elif op[0] == 'D':
                 return bad
+            elif op[0] == 'H':
+                # a route hook / per-prefix 404 handler is not a rule: whatever its pattern and however it
+                # spells the wildcards, `rules` and `reg` (what every handler must be called with) stay
+                run.ops.append('N')
+                run.answers.append('skip')
+                nh += 1
+                hook = (lambda path, values, k=nh: 'p%d' % k) if op[2] else (lambda path: None)
+                try:
+                    core.with_timeout(lambda: run.router.add_hook(op[1], hook, 1 if op[2] else 0))
+                except core.Hang:
+                    raise
+                except Exception:
+                    pass
             elif op[0] in ('R', 'W', 'G'):
                 run.ops.append('N')          # keeps Runner positions equal to op positions
                 run.answers.append('skip')
@@ -429,7 +520,7 @@ class C01(Check):
 
     def replay(self, data):
         ops = data['input']['ops']
-        run = G.Runner()
+        run = make_runner(ops)
         play(run, ops)
         return dict(ops=ops, implementation=list(zip(run.ops, run.answers)) if len(run.ops) < 40 else run.answers,
                     oracle=self.oracle(ops))
